@@ -344,4 +344,147 @@ theorem clean_replay {env : Env} (hS : env.Steady) (fin : St) :
     | tryCatch body k => simp only [cleanRun] at hc; cases hc
     | loadOwned key k => simp only [cleanRun] at hc; cases hc
 
+/-! ## The registrations of a clean run -/
+
+/-- The registration `AddAsset k D` is **good** in the cache `fin`: `k` is cached there, re-evaluating
+its loader there is a tracked hit-only run that returns the cached value and records exactly `D`. -/
+def MsgGood (env : Env) (fuel : Nat) (fin : St) (k : Key) (D : List Dep) : Prop :=
+  ∃ c, fin.lookup k = some c ∧ reloadHit env fuel fin k = true ∧ reloadOut env fuel fin k = .ok c.val ∧
+    reloadDeps env fuel fin k = D
+
+theorem St.insertKeepFirst_out (s : St) (k : Key) (c : Cell) : (s.insertKeepFirst k c).1.out = s.out := by
+  unfold St.insertKeepFirst; split <;> rfl
+
+theorem leaveOk_out (env : Env) (key : Key) (v : Val) (recs) (sb : St) :
+    (St.leaveOk env key v recs sb).out = sb.out ++ [.addAsset key sb.top] := by
+  unfold St.leaveOk
+  rw [St.own_out]
+  exact St.insertKeepFirst_out _ _ _
+
+theorem St.recordAll_out (s : St) (on : Bool) (ds : List Dep) : (s.recordAll on ds).out = s.out := by
+  unfold St.recordAll
+  induction ds generalizing s with
+  | nil => rfl
+  | cons d ds ih => simp only [List.foldl]; rw [ih]; exact St.record_out s on d
+
+theorem leaveErr_out (recs) (sb : St) : (St.leaveErr recs sb).out = sb.out := by
+  unfold St.leaveErr; rw [St.recordAll_out]
+
+/-- the registration a successful nested load sends is good in the final cache -/
+theorem clean_msg_good {env : Env} (hS : env.Steady) {fuel : Nat} {fin : St} {f : Nat} (hf : f ≤ fuel)
+    {s0 : St} {key : Key} {sb : St} {v : Val} {rs : List (Option (List Dep))}
+    (hs0 : s0.recs = some [] :: rs)
+    (hc : cleanRun env fin f s0 ((env.types key.ty).prog key.id) = true)
+    (hbody : eval env f s0 ((env.types key.ty).prog key.id) = (sb, .ok v))
+    (hle : sb.Le fin) {c : Cell} (hcell : fin.lookup key = some c) (hv : c.val = v) :
+    MsgGood env fuel fin key sb.top := by
+  have hrep := clean_replay hS fin f _ s0 [] rs v hs0 hc (by rw [hbody]) (by rw [hbody]; exact hle)
+    fin.fresh [] (fun _ => rfl) rfl
+  rw [hbody] at hrep
+  obtain ⟨r1, r2, r3⟩ := hrep
+  obtain ⟨g1, g2⟩ := hitRun_fuel env f fuel _ fin.fresh hf r1 (by rw [r2]; exact fun h => by cases h)
+  refine ⟨c, hcell, g1, ?_, ?_⟩
+  · unfold reloadOut; rw [reloadEval_eq]; simp only []; rw [g2, r2, hv]
+  · unfold reloadDeps; rw [reloadEval_eq]; simp only []; rw [g2, r3]
+
+/-- **Every registration of a clean run is good**: each `AddAsset` message the run adds to the channel
+names an asset that is cached in the final cache `fin`, holds there what re-evaluating its loader
+returns, and carries exactly what that re-evaluation reads. -/
+theorem clean_msgs {env : Env} (hS : env.Steady) (fuel : Nat) (fin : St) :
+    ∀ (f : Nat) (p : Prog) (s : St), f ≤ fuel → cleanRun env fin f s p = true → (eval env f s p).1.Le fin →
+    ∀ m, m ∈ (eval env f s p).1.out → m ∈ s.out ∨ ∃ k D, m = .addAsset k D ∧ MsgGood env fuel fin k D := by
+  intro f
+  induction f with
+  | zero => intro p s _ _ _ m hm; exact Or.inl hm
+  | succ f ih =>
+    intro p s hf hc hle m hm
+    have hf' : f ≤ fuel := by omega
+    cases p with
+    | ret v => exact Or.inl hm
+    | fail e => exact Or.inl hm
+    | panic => exact Or.inl hm
+    | read id ext k =>
+      simp only [cleanRun, Bool.and_eq_true] at hc
+      obtain ⟨hb, hc⟩ := hc
+      simp only [eval, hb] at hle hm
+      rcases ih _ _ hf' hc hle m hm with h | h
+      · exact Or.inl (by rw [← St.record_out s true (.file id ext)]; exact h)
+      · exact Or.inr h
+    | readDir id k =>
+      simp only [cleanRun, Bool.and_eq_true] at hc
+      obtain ⟨hb, hc⟩ := hc
+      simp only [eval, hb] at hle hm
+      rcases ih _ _ hf' hc hle m hm with h | h
+      · exact Or.inl (by rw [← St.record_out s true (.dir id)]; exact h)
+      · exact Or.inr h
+    | getCached key k =>
+      simp only [cleanRun, Bool.and_eq_true] at hc
+      obtain ⟨⟨hb, _⟩, hc⟩ := hc
+      simp only [eval, hb, St.record_lookup] at hle hm
+      rcases ih _ _ hf' hc hle m hm with h | h
+      · exact Or.inl (by rw [← St.record_out s true (.asset key)]; exact h)
+      · exact Or.inr h
+    | tick k =>
+      simp only [cleanRun] at hc
+      simp only [eval] at hle hm
+      exact ih _ _ hf' hc hle m hm
+    | load key k =>
+      simp only [cleanRun, Bool.and_eq_true] at hc
+      obtain ⟨hb, hc⟩ := hc
+      cases hl : s.lookup key with
+      | some c =>
+        rw [hl] at hc
+        simp only [] at hc
+        rw [eval_load_hit env f s key k c hl, hb] at hle hm
+        rcases ih _ _ hf' hc hle m hm with h | h
+        · exact Or.inl (by rw [← St.record_out s true (.asset key)]; exact h)
+        · exact Or.inr h
+      | none =>
+        rw [hl] at hc
+        simp only [Bool.and_eq_true] at hc
+        obtain ⟨hcb, hc⟩ := hc
+        have hout0 : (s.record true (.asset key)).enter.out = s.out := St.record_out s true _
+        cases hbody : eval env f (s.record true (.asset key)).enter ((env.types key.ty).prog key.id) with
+        | mk sb ob =>
+          rw [hbody] at hc
+          have ihb := ih ((env.types key.ty).prog key.id) (s.record true (.asset key)).enter hf' hcb
+          rw [hbody, hout0] at ihb
+          simp only [] at ihb
+          cases ob with
+          | ok v' =>
+            simp only [Bool.and_eq_true, Option.isNone_iff_eq_none] at hc
+            obtain ⟨hnl, hc⟩ := hc
+            rw [eval_load_miss_ok env f s key k hb hl hbody hnl] at hle hm
+            have hle1 : (St.leaveOk env key v' (s.record true (.asset key)).recs sb).Le fin :=
+              (eval_mono env f _ _).trans hle
+            have hsb : sb.Le fin := (leaveOk_le env key v' _ sb).trans hle1
+            rcases ih _ _ hf' hc hle m hm with h | h
+            · rw [leaveOk_out, List.mem_append, List.mem_singleton] at h
+              rcases h with h | h
+              · exact ihb hsb m h
+              · refine Or.inr ⟨key, sb.top, h, ?_⟩
+                have hs0 : (s.record true (.asset key)).enter.recs = some [] :: (s.record true (.asset key)).recs := rfl
+                exact clean_msg_good hS hf' hs0 hcb hbody hsb
+                  (hle1 key _ (leaveOk_lookup_self env key v' _ sb hnl)) rfl
+            · exact Or.inr h
+          | err e =>
+            simp only [Bool.and_eq_true] at hc
+            rw [eval_load_miss env f s key k hb hl, hbody] at hle hm
+            simp only [] at hle hm
+            have hsb : sb.Le fin :=
+              (St.Le.of_map_eq (leaveErr_map (s.record true (.asset key)).recs sb)).trans ((eval_mono env f _ _).trans hle)
+            rcases ih _ _ hf' hc.1 hle m hm with h | h
+            · rw [leaveErr_out] at h; exact ihb hsb m h
+            · exact Or.inr h
+          | panicked =>
+            rw [eval_load_miss env f s key k hb hl, hbody] at hle hm
+            exact ihb ((St.Le.of_map_eq rfl).trans hle) m hm
+          | diverged =>
+            rw [eval_load_miss env f s key k hb hl, hbody] at hle hm
+            exact ihb ((St.Le.of_map_eq rfl).trans hle) m hm
+    | noRecord body k => simp only [cleanRun] at hc; cases hc
+    | onThread body k => simp only [cleanRun] at hc; cases hc
+    | tryCatch body k => simp only [cleanRun] at hc; cases hc
+    | loadOwned key k => simp only [cleanRun] at hc; cases hc
+
 end AmVerif.Model
